@@ -1,6 +1,8 @@
 import Driver.Common
 import Driver.PacketIO
 import Rtp.Pred.C01
+import Rtp.Pred.C04
+import Rtp.Pred.C20
 namespace Rtp.Kinds.CoreA
 open Rtp Rtp.Proto Rtp.Model
 
@@ -14,5 +16,62 @@ def c01rt : Handler :=
     (fun (p, _) o => Pred.C01.pred p o)
     (fun (p, _) => Pred.C01.wfP p)
 
-def handlers : List (String × Handler) := [("c01.rt", c01rt)]
+/-- `c04.to  <packet> <dst bytes> => size hsize marshal hmarshal pto pbuf hto hbuf` -/
+def c04to : Handler :=
+  mkHandler (do let p ← rdPacket; let dst ← Rd.bytes; pure (p, dst))
+    (do let size ← Rd.nat; let hs ← Rd.nat; let m ← rdBytesRes; let hm ← rdBytesRes
+        let pto ← Rd.res Rd.nat; let pbuf ← Rd.bytes; let hto ← Rd.res Rd.nat; let hbuf ← Rd.bytes
+        pure ({ size := size, hsize := hs, marshal := m, hmarshal := hm, pto := pto, pbuf := pbuf,
+                hto := hto, hbuf := hbuf } : Pred.C04.Obs))
+    (fun (p, dst) => Pred.C04.modelObs p dst)
+    (fun (p, dst) o => Pred.C04.pred p dst o)
+    (fun (p, _) => Pred.C01.wfP p)
+
+def rdNils (withPayload : Bool) : Rd Pred.C20.Nils := do
+  let c ← Rd.bool
+  let p ← if withPayload then Rd.bool else pure false
+  let e ← Rd.bool
+  let l ← Rd.list Rd.bool
+  pure { csrc := c, payload := p, exts := e, extPl := l }
+
+def rdSide : Rd Pred.C20.Side := do
+  let p ← rdPacket; let r ← Rd.u16; pure { pkt := p, rawProfile := r }
+
+/-- `<kind> <a> <b> <bytes>` -/
+def rdMut : Rd Pred.C20.Mut := do
+  let k ← Rd.nat; let a ← Rd.nat; let b ← Rd.nat; let bs ← Rd.bytes
+  match k with
+  | 0 => pure .none
+  | 1 => pure (.payloadByte a)
+  | 2 => pure (.csrcEntry a)
+  | 3 => pure (.extByte a b)
+  | 4 => if a < 256 then pure (.setExt a.toUInt8 bs) else Rd.fail
+  | 5 => if a < 256 then pure (.delExt a.toUInt8) else Rd.fail
+  | _ => Rd.fail
+
+/-- `c20.clone  <packet> payloadOffset <nils> <mut> <onClone>
+      => marshal0 <clone side> <nils> clonePO ovPayload ovCsrc ovExtArr ovExtPl
+         <hclone header> hRaw <hnils> hPO hovCsrc hovExtArr hovExtPl <other side> otherMarshal
+         <hclone header after the mutation> hAfterRaw` -/
+def c20clone : Handler :=
+  mkHandler
+    (do let p ← rdPacket; let po ← Rd.nat; let n ← rdNils true; let m ← rdMut; let s ← Rd.bool
+        pure ({ p := p, po := po, nils := n, mutn := m, onClone := s } : Pred.C20.Input))
+    (do let m0 ← rdBytesRes
+        let c ← rdSide; let cn ← rdNils true; let cpo ← Rd.nat
+        let o1 ← Rd.bool; let o2 ← Rd.bool; let o3 ← Rd.bool; let o4 ← Rd.bool
+        let hc ← rdHeader; let hr ← Rd.u16; let hn ← rdNils false; let hpo ← Rd.nat
+        let h1 ← Rd.bool; let h2 ← Rd.bool; let h3 ← Rd.bool
+        let ot ← rdSide; let om ← rdBytesRes
+        let ha ← rdHeader; let har ← Rd.u16
+        pure ({ marshal0 := m0, clone := c, cloneNils := cn, clonePO := cpo, hPO := hpo, hAfter := ha,
+                hAfterRaw := har, ovPayload := o1, ovCsrc := o2, ovExtArr := o3,
+                ovExtPl := o4, hclone := hc, hRaw := hr, hNils := hn, hovCsrc := h1, hovExtArr := h2,
+                hovExtPl := h3, other := ot, otherMarshal := om } : Pred.C20.Obs))
+    Pred.C20.modelObs
+    Pred.C20.pred
+    (fun x => Pred.C01.wfP x.p)
+
+def handlers : List (String × Handler) :=
+  [("c01.rt", c01rt), ("c04.to", c04to), ("c20.clone", c20clone)]
 end Rtp.Kinds.CoreA
